@@ -19,10 +19,12 @@ import (
 	"time"
 
 	"github.com/caddyserver/caddy/v2"
+	"github.com/caddyserver/caddy/v2/caddyconfig"
+	"github.com/caddyserver/caddy/v2/caddyconfig/caddyfile"
 	"go.uber.org/zap"
 
 	"github.com/mholt/caddy-l4/layer4"
-	_ "github.com/mholt/caddy-l4/modules/l4socks"
+	"github.com/mholt/caddy-l4/modules/l4socks"
 
 	"verif/mc/explore"
 	"verif/mc/hm"
@@ -78,7 +80,42 @@ func (d Dialogue) Bytes() []byte {
 type Scn struct {
 	Commands []string          `json:"commands"`
 	Creds    map[string]string `json:"creds"`
+	Form     string            `json:"form,omitempty"`     // "" = JSON configuration; "caddyfile" = the same options written as a Caddyfile block and parsed by the handler's UnmarshalCaddyfile
 	D        *Dialogue         `json:"dialogue,omitempty"` // replay
+}
+
+// handlerConfig returns the handler's JSON configuration: stated directly, or obtained from
+// the equivalent Caddyfile block the way the Caddyfile adapter does.
+func handlerConfig(sc *Scn) (json.RawMessage, error) {
+	if sc.Form != "caddyfile" {
+		cfg := map[string]any{"handler": "socks5"}
+		if len(sc.Commands) > 0 {
+			cfg["commands"] = sc.Commands
+		}
+		if len(sc.Creds) > 0 {
+			cfg["credentials"] = sc.Creds
+		}
+		return hm.J(cfg), nil
+	}
+	var sb strings.Builder
+	sb.WriteString("socks5 {\n")
+	for _, c := range sc.Commands { // one line per command: repeated options accumulate
+		fmt.Fprintf(&sb, "\tcommands %s\n", c)
+	}
+	var users []string
+	for u := range sc.Creds {
+		users = append(users, u)
+	}
+	sort.Strings(users)
+	for _, u := range users {
+		fmt.Fprintf(&sb, "\tcredentials %q %q\n", u, sc.Creds[u])
+	}
+	sb.WriteString("}\n")
+	h := &l4socks.Socks5Handler{}
+	if err := h.UnmarshalCaddyfile(caddyfile.NewTestDispenser(sb.String())); err != nil {
+		return nil, err
+	}
+	return caddyconfig.JSONModuleObject(h, "handler", "socks5", nil), nil
 }
 
 // reference semantics, from RFC 1928/1929 and the handler's documented configuration: may
@@ -224,15 +261,12 @@ func execute(x *explore.Exec, sc *Scn, d *Dialogue) *result {
 				return cEnd, nil
 			})
 		}
-		cfg := map[string]any{"handler": "socks5"}
-		if len(sc.Commands) > 0 {
-			cfg["commands"] = sc.Commands
-		}
-		if len(sc.Creds) > 0 {
-			cfg["credentials"] = sc.Creds
+		cfg, err := handlerConfig(sc)
+		if err != nil {
+			panic(err) // forms the parser rejects are filtered out in scenarios()
 		}
 		srv := &layer4.Server{}
-		if err := json.Unmarshal(hm.J([]map[string]any{{"handle": []map[string]any{cfg}}}), &srv.Routes); err != nil {
+		if err := json.Unmarshal(hm.J([]map[string]any{{"handle": []json.RawMessage{cfg}}}), &srv.Routes); err != nil {
 			panic(err)
 		}
 		if err := srv.Provision(ctx, nop); err != nil {
@@ -257,7 +291,7 @@ func execute(x *explore.Exec, sc *Scn, d *Dialogue) *result {
 }
 
 func check(x *explore.Exec, sc *Scn, d *Dialogue, r *result) {
-	desc := fmt.Sprintf("config commands=%v credentials=%v dialogue=%s (%x) -> reply %x, dials=%v listens=%v", sc.Commands, sc.Creds, hm.J(d), d.Bytes(), r.reply, r.dials, r.listens)
+	desc := fmt.Sprintf("config%s commands=%v credentials=%v dialogue=%s (%x) -> reply %x, dials=%v listens=%v", map[string]string{"": "", "caddyfile": " (written as a Caddyfile block)"}[sc.Form], sc.Commands, sc.Creds, hm.J(d), d.Bytes(), r.reply, r.dials, r.listens)
 	for _, p := range r.out.Panics {
 		x.Fail("panic:"+p[strings.LastIndex(p, " at ")+4:], "a thread panicked: %s; %s", p, desc)
 	}
@@ -357,6 +391,16 @@ func scenarios(tier string, yield func(any) bool) {
 			if !yield(&Scn{Commands: cs, Creds: cr}) {
 				return
 			}
+			cf := &Scn{Commands: cs, Creds: cr, Form: "caddyfile"}
+			if len(cs)+len(cr) == 0 {
+				continue // nothing to write
+			}
+			if _, err := handlerConfig(cf); err != nil {
+				continue // the Caddyfile parser refuses this form (and says so)
+			}
+			if !yield(cf) {
+				return
+			}
 		}
 	}
 }
@@ -365,7 +409,7 @@ func main() {
 	runner.Main(&runner.Harness{
 		ID:          "C16",
 		Level:       "model_checking",
-		Rule:        "all 8 command subsets x credential maps {none, one pair, two pairs, empty user name, empty password} x client dialogues from a grammar: greeting (version 5/4, 7 method lists), optional username/password sub-negotiation (version 1/5, right/wrong/empty user and password), request (version 5/4, command 0..4 and 255, address type 1/3/4/5) and every truncation of a permitted dialogue; the real handler and go-socks5 run under the scheduler, every net.Dial / net.ListenUDP of the library lands in the virtual network, which records it; states = distinct (configuration, dialogue) pairs",
+		Rule:        "the handler configured in JSON and through the equivalent Caddyfile block (its UnmarshalCaddyfile) x all 8 command subsets x credential maps {none, one pair, two pairs, empty user name, empty password} x client dialogues from a grammar: greeting (version 5/4, 7 method lists), optional username/password sub-negotiation (version 1/5, right/wrong/empty user and password), request (version 5/4, command 0..4 and 255, address type 1/3/4/5) and every truncation of a permitted dialogue; the real handler and go-socks5 run under the scheduler, every net.Dial / net.ListenUDP of the library lands in the virtual network, which records it; states = distinct (configuration, dialogue) pairs",
 		Assumptions: []string{"one schedule per dialogue (the property quantifies over inputs and configurations); placeholders in credentials are not exercised; the DNS lookup go-socks5 performs for domain addresses before consulting the rules is not counted as a connection"},
 		Scenarios:   scenarios,
 		Run: func(tier string, scAny any, rep *runner.Report) {
